@@ -27,6 +27,10 @@ THEOREMS = [
     "c04_handshake_total",
     "c04_handshake_common",
     "c04_library_handshake",
+    "c04_code_is_instance",
+    "c04_any_choice",
+    "c04_session_records_answer_seq_any_choice",
+    "c04_handshake_sound_any_choice",
 ]
 RULE = (
     "server: requested protocolVersion in {each supported version, every calendar date 1925-01-01..2124-12-31, seeded dddd-dd-dd strings "
@@ -52,8 +56,10 @@ MALFORMED_STRINGS = [
     "2025-06-18\r", "2025-06-18;", "2O25-06-18",
 ]
 NON_STRINGS = [0, 1, -1, 123, 20250618, 2025.0618, 1.5, True, False, None, [], ["2025-06-18"], [2025, 6, 18], {},
-               {"version": "2025-06-18"}, {"protocolVersion": "2025-06-18"}, 2**70, -(2**63)]
-ABSENT_SHAPES = ["no-member", "empty-params", "null-params", "no-params"]
+               {"version": "2025-06-18"}, {"protocolVersion": "2025-06-18"}, 2**70, -(2**63),
+               0.0, -0.0, 1.0, 7, 7.0, [""], [0], {"": ""}, [[]], 1e300]
+TWIN_STRINGS = ["0", "1", "7", "7.0", "1.0", "0.0", "True", "true", "False", "false", "null", "None", "[]", "{}", "NaN"]
+ABSENT_SHAPES = ["no-member", "empty-params", "null-params", "no-params", "lookalikes"]
 
 
 def all_dates(y0=1925, y1=2124):
@@ -102,6 +108,23 @@ class Server(Suite):
         out += [{"req": {"k": "absent", "shape": sh}} for sh in ABSENT_SHAPES]
         out += [{"req": {"k": "json", "v": v}} for v in NON_STRINGS]
         out += [{"req": {"k": "str", "s": s}} for s in V.INVENTED + [V.OUTSIDE] + MALFORMED_STRINGS + [""]]
+        # hardening sweep: type twins as strings, format-hostile text, every constant of the anchored source (as a string, and the
+        # integers also as numbers and as digit strings)
+        strs, ints = V.harvest_constants()
+        out += [{"req": {"k": "str", "s": s}} for s in TWIN_STRINGS + V.HOSTILE_TEXT + strs + [str(i) for i in ints] if s != ""]
+        out += [{"req": {"k": "json", "v": i}} for i in ints]
+        # the dressing of the request around the version member: ids of every shape (falsy, twins, hostile, none = sent as a
+        # notification), clientInfo falsy / absent / hostile, member order, extra and look-alike members
+        dress = [{"k": "str", "s": sup[-1]}, {"k": "str", "s": "1999-12-31"}, {"k": "str", "s": ""}, {"k": "json", "v": 0},
+                 {"k": "json", "v": None}, {"k": "absent", "shape": "no-member"}]
+        for r in dress:
+            for i in range(len(V.REQUEST_IDS)):
+                out.append({"req": dict(r, id=i)})
+            for ci in V.CLIENT_INFO:
+                out.append({"req": dict(r, ci=ci)})
+            if r["k"] != "absent":
+                for layout in ("version-first", "extras"):
+                    out.append({"req": dict(r, layout=layout)})
         rng = ctx.sub_rng("c04-server", budget)
         out += [{"req": {"k": "str", "s": s}} for s in mutations(rng, sup, 300 if budget == "quick" else 5000)]
         out += self.sequences(sup)
@@ -121,10 +144,21 @@ class Server(Suite):
         reqs = [{"k": "str", "s": s} for s in reversed(sup)] + [{"k": "str", "s": "1999-12-31"}, {"k": "json", "v": 0},
                                                                   {"k": "absent", "shape": "no-member"}]
         out = []
-        for carry in ("prev", None, "bogus"):
+        for carry in ("prev", None, "bogus", "empty", "deleted", "cleared"):
             for a in reqs:
                 for b in reqs:
                     out.append({"steps": [{"req": a, "carry": None}, {"req": b, "carry": carry}]})
+        for between in (["unknown-method"], ["initialized"], ["unknown-notification"], ["ping", "initialized", "ping"], []):
+            for a in reqs[:4]:
+                for b in reqs[:4]:
+                    out.append({"steps": [{"req": a, "carry": None}, {"req": b, "carry": "prev", "between": between}]})
+                    out.append({"steps": [{"req": a, "carry": None, "between": between}, {"req": b, "carry": None, "between": between}]})
+        for a in reqs:  # the very same message object delivered twice, then a different request
+            for carry in (None, "prev"):
+                out.append({"steps": [{"req": a, "carry": None}, {"req": a, "carry": carry, "same_object": True},
+                                      {"req": reqs[0] if a is not reqs[0] else reqs[1], "carry": carry}]})
+        # a long-lived handler: 150 initialize requests cycling through the request kinds, every second one carrying the previous id
+        out.append({"steps": [{"req": reqs[i % len(reqs)], "carry": ("prev" if i % 2 else None)} for i in range(150)]})
         for pattern in (("prev", "prev"), ("first", "first"), (None, "prev"), ("prev", None), ("bogus", "prev")):
             for a in reqs:
                 for b in reqs:
@@ -138,7 +172,16 @@ class Server(Suite):
         seqs = [c for c in cases if "steps" in c]
         so = iter(V.run_server(single) if single else [])
         qo = iter(V.run_server_seq(seqs) if seqs else [])
-        return [next(qo) if "steps" in c else next(so) for c in cases]
+        obs = [next(qo) if "steps" in c else next(so) for c in cases]
+        self._last = {id(c): o for c, o in zip(cases, obs)}
+        return obs
+
+    @staticmethod
+    def choice(o):
+        """the version the handler under test fell back to, handed to the model as its free choice (serverAnswerG): the model then
+        demands an echo for a supported request and accepts any SUPPORTED version otherwise"""
+        a = (o or {}).get("answered")
+        return a if isinstance(a, str) else None
 
     @staticmethod
     def model_req(r):
@@ -151,11 +194,17 @@ class Server(Suite):
     def model_line(self, case):
         if "steps" in case:
             # the carried id as a store position (the model ignores it, as the code does)
-            pos = {"prev": lambda i: i - 1, "first": lambda i: 0, "bogus": lambda i: 999}
+            pos = {"prev": lambda i: i - 1, "first": lambda i: 0, "bogus": lambda i: 999, "empty": lambda i: 998,
+                   "deleted": lambda i: i - 1, "cleared": lambda i: i - 1}
+            obs = (getattr(self, "_last", {}).get(id(case)) or {}).get("steps") or []
             return {"m": "version", "op": "serverseq",
-                    "steps": [{"req": self.model_req(st["req"]), "carry": pos[st["carry"]](i) if st.get("carry") else None}
+                    "steps": [{"req": self.model_req(st["req"]), "carry": pos[st["carry"]](i) if st.get("carry") else None,
+                               "choice": self.choice(obs[i]) if i < len(obs) else None}
                               for i, st in enumerate(case["steps"])]}
-        return {"m": "version", "op": "server", "req": self.model_req(case["req"])}
+        if case["req"].get("id") is not None and V.REQUEST_IDS[case["req"]["id"]] is None:
+            return None  # initialize sent as a notification: there is no answer to compare (oracle only: the session, if any)
+        return {"m": "version", "op": "server", "req": self.model_req(case["req"]),
+                "choice": self.choice(getattr(self, "_last", {}).get(id(case)))}
 
     def compare(self, case, o, m):
         if "steps" in case:
@@ -182,7 +231,9 @@ class Server(Suite):
                     key, what, exp = v
                     if i > 0:
                         carried = {None: "no session id", "prev": "the session id of the previous initialize",
-                                   "first": "the session id of the first initialize", "bogus": "a stale session id"}[so.get("carried")]
+                                   "first": "the session id of the first initialize", "bogus": "a session id never issued",
+                                   "empty": "an empty session id", "deleted": "the id of the previous session, deleted meanwhile",
+                                   "cleared": "the id of the previous session, after all sessions were cleared"}[so.get("carried")]
                         key += "-on-reinitialize"
                         what = (f"initialize no. {i + 1} on one handler (earlier requests: "
                                 f"{', '.join(describe(s['req']) for s in case['steps'][:i])}; carrying {carried}): " + what)
@@ -217,8 +268,16 @@ class Server(Suite):
     def kind(self, case, o):
         if "steps" in case:
             reuse = "reused" if any(s.get("reused_carried") for s in o["steps"]) else "fresh"
-            return "sequence/%d/%s/%s" % (len(case["steps"]), "+".join(str(s.get("carry")) for s in case["steps"][1:]), reuse)
+            n = len(case["steps"])
+            extra = "".join(sorted({"/between:" + "+".join(s["between"]) for s in case["steps"] if s.get("between")}
+                                   | {"/same-object" for s in case["steps"] if s.get("same_object")}))
+            return "sequence/%s/%s/%s%s" % (n if n <= 3 else "long", "+".join(dict.fromkeys(str(s.get("carry")) for s in case["steps"][1:])),
+                                            reuse, extra)
         r = case["req"]
+        dress = "".join(["/id:" + type(V.REQUEST_IDS[r["id"]]).__name__ + ("-falsy" if not V.REQUEST_IDS[r["id"]] else "") if r.get("id") is not None else "",
+                         "/clientInfo:" + r["ci"] if r.get("ci") else "", "/layout:" + r["layout"] if r.get("layout") else ""])
+        if dress:
+            return "dressed/" + r["k"] + dress + "/" + str(o.get("kind"))
         if r["k"] == "absent":
             return "absent/" + r.get("shape", "")
         if r["k"] == "json":
@@ -263,13 +322,25 @@ class Handshake(Suite):
         lists = list(all_lists(3)) + [None]
         ctx.exhaustive_parts.append(
             "handshake: every client list of length<=3 (with repetition) over the 6-version universe, and no list, x 9 preferred versions")
-        return [{"sup": sup, "pref": pref} for sup in lists for pref in PREFS]  # shortest lists, absent preference first
+        out = [{"sup": sup, "pref": pref} for sup in lists for pref in PREFS]  # shortest lists, absent preference first
+        # the same over rendezvous / one-slot pipes (backpressure in both directions), and with constants of the source as versions
+        strs, _ = V.harvest_constants()
+        magic = [[s_] for s_ in strs if "ersion" in s_ or s_[:2] == "20"] + [["unknown"], ["None"], ["%s"], ["{}"], [" "], ["0"]]
+        for buf in (0, 1):
+            out += [{"sup": sup, "pref": pref, "buf": buf} for sup in lists if sup is None or len(sup) <= 2 for pref in (None, "2024-11-05", "")]
+        out += [{"sup": sup + tail, "pref": pref, "buf": (None, 0)[i % 2]} for i, sup in enumerate(magic)
+                for tail in ([], ["2025-03-26"]) for pref in (None, sup[0])]
+        return out
 
     def impl_batch(self, cases):
-        return V.run_handshake(cases)
+        obs = V.run_handshake(cases)
+        self._last = {id(c): o for c, o in zip(cases, obs)}
+        return obs
 
     def model_line(self, case):
-        return {"m": "version", "op": "handshake", "sup": case["sup"], "pref": case["pref"]}
+        a = (getattr(self, "_last", {}).get(id(case)) or {}).get("answered")
+        return {"m": "version", "op": "handshake", "sup": case["sup"], "pref": case["pref"],
+                "choice": a if isinstance(a, str) else None}  # the server's free choice, see Server.choice
 
     def compare(self, case, o, m):
         if o.get("outcome") != m.get("outcome"):
